@@ -1048,3 +1048,19 @@ impl<'de> serde::de::Visitor<'de> for DataVisitor<'_> {
         Ok(())
     }
 }
+
+#[cfg(feature = "verif-hooks")]
+impl AnnotationDataSet {
+    /// Verification hook: deterministic dump of the complete internal state of the dataset
+    pub fn verif_dump(&self, prefix: &str, out: &mut String) {
+        use crate::verif::section;
+        section(out, &format!("{}.intid", prefix), &self.intid);
+        section(out, &format!("{}.id", prefix), &self.id);
+        section(out, &format!("{}.keys", prefix), &self.keys);
+        section(out, &format!("{}.data", prefix), &self.data);
+        section(out, &format!("{}.filename", prefix), &self.filename);
+        section(out, &format!("{}.key_idmap", prefix), &self.key_idmap.verif_sorted());
+        section(out, &format!("{}.data_idmap", prefix), &self.data_idmap.verif_sorted());
+        section(out, &format!("{}.key_data_map", prefix), &self.key_data_map.data);
+    }
+}
